@@ -215,8 +215,10 @@ def _merge_leading_temps(body, params):
 
 
 def _call_free(e):
+    """an expression that can be written out at every use: no calls, and nothing that creates a new mutable object (a list / dict /
+    set display evaluated twice is two objects)"""
     return not any(isinstance(n, (ast.Call, ast.Await, ast.Yield, ast.YieldFrom, ast.NamedExpr, ast.Lambda, ast.ListComp, ast.SetComp,
-                                  ast.DictComp, ast.GeneratorExp, ast.Starred)) for n in ast.walk(e))
+                                  ast.DictComp, ast.GeneratorExp, ast.Starred, ast.List, ast.Dict, ast.Set, ast.JoinedStr)) for n in ast.walk(e))
 
 
 class _Callee:
@@ -540,6 +542,10 @@ class Inliner:
                 continue
             self.counter += 1
             self.report.append(('inlined', callee.qual, getattr(self.g, 'name', '?'), ''))
+            for new_st in res[1]:
+                if new_st is not st:
+                    for n_ in ast.walk(new_st):
+                        n_._inl = True      # spliced in from the helper: re-anchored at the call site by renumber_inlined
             if res[0] == 'replace':
                 return pre + res[1]
             pre.extend(res[1])          # hoisted; the statement itself was edited in place
@@ -667,12 +673,60 @@ class Inliner:
                     return {}
                 m[e.id] = t
         locals_ = callee.stores - set(callee.params)
-        if len(set(m.values())) != len(m) or not set(m) <= locals_:
+        # an in-out parameter: the caller passes variable A for parameter p and receives p back into A (`q, r = helper(q)`)
+        inout = {p for p in m if p in callee.params and isinstance(binding.get(p), ast.Name) and binding[p].id == m[p] and
+                 sum(1 for v in binding.values() if m[p] in _names(v)) == 1}
+        if len(set(m.values())) != len(m) or not set(m) <= (locals_ | inout):
             return {}
         others = (locals_ | set(callee.params)) - set(m)
-        if set(m.values()) & (argnames | others):
+        argnames_other = set()
+        for q, v in binding.items():
+            if q not in inout:
+                argnames_other |= _names(v)
+        if set(m.values()) & (argnames_other | others):
             return {}
         return m
+
+    def _dead_after(self, name, binding):
+        """is the caller's variable `name` never read from the call site on (in document order; anywhere in an enclosing loop counts as
+        "after")?  Then a helper local of the same name can share it: the old value is not needed any more."""
+        st = getattr(self, '_site', None)
+        g = getattr(self, 'g', None)
+        if st is None or g is None:
+            return False
+        if any(name in _names(v) for v in binding.values()):
+            return False            # passed to the helper: still needed
+        params = {a.arg for a in ast.walk(g.args) if isinstance(a, ast.arg)}
+        if name in params:
+            return False
+        state = {'seen': False, 'live': False, 'found': False}
+        loops = []
+
+        def rec(n, in_loops):
+            if state['live']:
+                return
+            if n is st:
+                state['found'] = True
+                # reads inside the call statement itself happen before the helper runs; reads in enclosing loops are "after"
+                for lp in in_loops:
+                    for x in ast.walk(lp):
+                        if isinstance(x, ast.Name) and x.id == name and isinstance(x.ctx, ast.Load) and not _inside_node(x, st):
+                            state['live'] = True
+                state['seen'] = True
+                return
+            if isinstance(n, ast.Name):
+                if state['seen'] and n.id == name and isinstance(n.ctx, ast.Load):
+                    state['live'] = True
+                return
+            if isinstance(n, (ast.FunctionDef, ast.AsyncFunctionDef, ast.Lambda)) and n is not g:
+                if any(isinstance(x, ast.Name) and x.id == name for x in ast.walk(n)):
+                    state['live'] = True        # captured by a nested function: do not reason about it
+                return
+            nxt = in_loops + [n] if isinstance(n, (ast.For, ast.While, ast.AsyncFor)) else in_loops
+            for c in ast.iter_child_nodes(n):
+                rec(c, nxt)
+        rec(g, [])
+        return state['found'] and not state['live']
 
     def instantiate(self, callee, call, depth, targets=None):
         """-> (prelude statements, body statements with names substituted)"""
@@ -685,12 +739,16 @@ class Inliner:
                 if unify[v] != v:
                     rename[v] = unify[v]
                 continue
-            if v in self.gnames:
+            if v in self.gnames and not self._dead_after(v, binding):
                 rename[v] = self.fresh('%s__%s' % (v, callee.name.strip('_')))
             else:
                 self.gnames.add(v)
         for p in callee.params:
             arg = binding[p]
+            if p in unify and isinstance(arg, ast.Name) and unify[p] == arg.id:
+                if p != arg.id:
+                    rename[p] = arg.id          # in-out parameter: the caller's own variable is used
+                continue
             attrs = {n.attr for n in ast.walk(arg) if isinstance(n, ast.Attribute)}
             if (_is_simple(arg) or _no_call(arg)) and p not in callee.stores and not (_names(arg) & callee.scoped) and \
                     p not in callee.scoped and not (attrs & callee.attr_stores):
@@ -715,6 +773,9 @@ class Inliner:
             inner.cur_class = self.cur_class      # self is still the caller's object
         body = inner.block(body, depth + 1)
         self.counter += inner.counter
+        for st_ in prelude + body:
+            for n_ in ast.walk(st_):
+                n_._inl = True          # line numbers of the helper: re-anchored at the call site (renumber_inlined)
         return prelude, body
 
     def inline_call(self, st, call, cond, callee, depth):
@@ -754,6 +815,7 @@ class Inliner:
             targets = [t0.id] if isinstance(t0, ast.Name) else [e.id for e in t0.elts]
             if len(set(targets)) != len(targets):
                 targets = None
+        self._site = st
         prelude, body = self.instantiate(callee, call, depth, targets)
         if whole and isinstance(st, ast.Return):
             # tail call: the callee's returns are the caller's returns, the body is spliced unchanged
@@ -815,6 +877,59 @@ class Inliner:
         for s in stmts:
             ast.fix_missing_locations(s)
         return stmts
+
+
+def _inside_node(x, top):
+    return any(n is x for n in ast.walk(top))
+
+
+def renumber_inlined(tree):
+    """statements that were spliced in from a helper carry the helper's line numbers; the rules order statements by position, and
+    reports should point at the call site.  They get fractional line numbers just behind the last line of the caller that precedes
+    them in document order (so `a.lineno < b.lineno` is document order again and int(lineno) is the line before the call)."""
+    for fn in ast.walk(tree):
+        if not isinstance(fn, (ast.FunctionDef, ast.AsyncFunctionDef)) or not any(getattr(n, '_inl', False) for n in ast.walk(fn)):
+            continue
+        state = {'last': float(fn.lineno), 'k': 0}
+
+        def own_lines(st):
+            """largest line number of the statement's own header (its expressions, not nested statement lists)"""
+            m = getattr(st, 'lineno', 0) or 0
+            stack = [c for c in ast.iter_child_nodes(st) if not isinstance(c, ast.stmt)]
+            while stack:
+                n = stack.pop()
+                if isinstance(n, ast.stmt):
+                    continue
+                m = max(m, getattr(n, 'end_lineno', None) or getattr(n, 'lineno', 0) or 0)
+                stack.extend(ast.iter_child_nodes(n))
+            return m
+
+        def rec(body):
+            for st in body:
+                if getattr(st, '_inl', False):
+                    state['k'] += 1
+                    ln = int(state['last']) + state['k'] * 0.0001
+                    st.lineno = st.end_lineno = ln
+                    stack = [c for c in ast.iter_child_nodes(st) if not isinstance(c, ast.stmt)]
+                    while stack:
+                        n = stack.pop()
+                        if isinstance(n, ast.stmt):
+                            continue
+                        if hasattr(n, 'lineno'):
+                            n.lineno = n.end_lineno = ln
+                        stack.extend(ast.iter_child_nodes(n))
+                else:
+                    state['last'] = max(state['last'], float(own_lines(st)))
+                for fld in ('body', 'orelse', 'finalbody'):
+                    b = getattr(st, fld, None)
+                    if isinstance(b, list) and b and isinstance(b[0], ast.stmt) and not isinstance(st, (ast.FunctionDef, ast.AsyncFunctionDef, ast.ClassDef)):
+                        rec(b)
+                for h in getattr(st, 'handlers', []) or []:
+                    if getattr(h, '_inl', False):
+                        state['k'] += 1
+                        h.lineno = h.end_lineno = int(state['last']) + state['k'] * 0.0001
+                    rec(h.body)
+        rec(fn.body)
 
 
 def reparent(tree):
@@ -1083,6 +1198,7 @@ def normalise(trees, known=None, sources=None):
     from .simplify import simplify_tree
     from .localnames import restore_module
     for rel, t in changed.items():
+        renumber_inlined(t)
         # the inlined bodies bring their own named conditions and literal tables: same normal forms as at parse time
         simplify_tree(t)
         restore_module(rel, t, sources[rel])
